@@ -269,6 +269,20 @@ func cmdRun(args []string) int {
 		}
 		unlisted = append(unlisted, v)
 	}
+	if len(unlisted) > 0 {
+		var unowned []string
+		for _, u := range ws.Report.Unwoven {
+			if !strings.HasPrefix(u, "go statement") && !strings.HasPrefix(u, "select statement") {
+				unowned = append(unowned, u)
+			}
+		}
+		if len(unowned) > 0 {
+			// the library reaches the real operating system through a call the
+			// simulator does not own: what the harness observed may be an artefact
+			fmt.Fprintf(os.Stderr, "simcheck: %d violation(s) found, but the tree uses OS calls the simulator does not own (%s); not reporting a VIOLATION on that basis\n", len(unlisted), strings.Join(unowned, ", "))
+			return 2
+		}
+	}
 	for _, v := range unlisted {
 		fmt.Printf("violation class=%s seed=%d index=%d (%s)\n%s\n", v.Class, v.Seed, v.Index, v.Shrink, v.Msg)
 		fmt.Printf("VIOLATION property=%s replay=%s\n", prop, v.Replay)
